@@ -147,6 +147,13 @@ def run(ck, prog, tier, load):
         ck.ob("C05-d.body-poll-bounded", "poll_response|%s" % ("boxed" if "BoxBody" in str(t["fn"].get("selfty")) else "B"), ok, presp, bb, "the response body is polled only while write_buf is below the limit")
     cfgw = prog.find(r"^actix_http::config::ServiceConfig::h1_write_buffer_size$")
     ck.ob("C05-d.limit-from-config", "h1_write_buffer_size", len(cfgw) == 1, cfgw[0] if cfgw else None, None, "limit comes from ServiceConfig::h1_write_buffer_size", nontrivial=False)
+    # the bound the dispatcher compares against is the value the application configured, not a value derived from it
+    for setter, fld in (("h1_write_buffer_size", "h1_write_buffer_size"),):
+        for b in prog.find(r"^actix_http::config::ServiceConfigBuilder::%s$" % setter):
+            ws = [(bb, b.rv_expr(s_["rv"], 4)) for bb, i, s_ in b.assigns() if any(isinstance(x, str) and x.endswith("." + fld) for x in s_["p"][1:])]
+            ck.anchor("C05-d", len(ws), 1, "write of %s in ServiceConfigBuilder::%s" % (fld, setter))
+            for bb, e in ws:
+                ck.ob("C05-d.configured-bound-stored-as-given", setter, e[0] == "arg", b, bb, "the configured %s is stored unchanged (the memory bound promised is the one configured): %s" % (fld, short(e, 3)))
 
 
 def guarded_by_any(body, site, pred):
